@@ -321,16 +321,13 @@ public:
                       unsigned numImplicitInputs) override {
     StringRef name(nameTok.start, nameTok.length);
 
-    // Resolve the rule.
-    auto it = getCurrentScope().getRules().find(name);
-    Rule* rule;
-    if (it == getCurrentScope().getRules().end()) {
+    // Resolve the rule, searching the enclosing scopes as well.
+    Rule* rule = getCurrentScope().lookupRule(name);
+    if (!rule) {
       error("unknown rule", nameTok);
 
       // Ensure we always have a rule for each command.
       rule = manifest->getPhonyRule();
-    } else {
-      rule = it->second;
     }
 
     // Resolve all of the inputs and outputs.
